@@ -7,6 +7,7 @@ package sim
 import (
 	"bytes"
 	"context"
+	"errors"
 	"fmt"
 	"io"
 	"io/fs"
@@ -83,6 +84,7 @@ type C1 struct {
 	NilHooksOption  bool          // serial client built with WithSerialHooks(nil) when no hooks are wanted
 	PanicHook       string        // "write" | "read" | "parse": the installed hook of that kind panics once; the application recovers the panic and goes on using the client
 	HookDelay       time.Duration // every hook call takes this long (simulated)
+	CtxWithCause    bool          // the caller's context carries a cancellation cause (WithCancelCause / WithTimeoutCause)
 	DialCtxBound    bool          // network clients: the connection lives only as long as the context the dial function was given
 	ZeroNilReads    bool          // network transports: a non-blocking connection whose reads return (0, nil) when nothing has arrived
 	WrappedTimeouts bool          // network transports report read timeouts as a *net.OpError wrapping the sentinel, as real sockets do
@@ -324,10 +326,20 @@ func RunC1(rc *RunCtx, sc *C1) *C1Outcome {
 	cl, _ := NewPipe(s, "c")
 	cl.Name = "cli"
 	ctx, cancel := context.WithCancel(context.Background())
+	if sc.CtxWithCause {
+		// the application cancels with a reason of its own (context.WithCancelCause / WithTimeoutCause): what the call
+		// reports is still the context's error
+		c0, cc := context.WithCancelCause(context.Background())
+		ctx, cancel = c0, func() { cc(errors.New("operator pressed stop")) }
+	}
 	defer cancel()
 	if sc.Fault == FCtxDeadline {
 		var c2 context.CancelFunc
-		ctx, c2 = context.WithTimeout(ctx, sc.CancelAt)
+		if sc.CtxWithCause {
+			ctx, c2 = context.WithTimeoutCause(ctx, sc.CancelAt, errors.New("poll cycle budget used up"))
+		} else {
+			ctx, c2 = context.WithTimeout(ctx, sc.CancelAt)
+		}
 		defer c2()
 	}
 	if sc.Fault == FCancelBefore {
